@@ -97,7 +97,7 @@ def _decode_array(buffer: "_Buffer", fcp: "ref:FcpV2", type: "ref:ArrayType") ->
     ensures(buffer.bitaddr >= old(buffer.bitaddr))
     no_raise_if(conforms(fcp, type, v) and starts(fcp, type, buffer.gbits, buffer.bitaddr, v))
     ensures(implies(conforms(fcp, type, v) and starts(fcp, type, buffer.gbits, old(buffer.bitaddr), v),
-                    d_mk_list(result) == v and buffer.bitaddr == old(buffer.bitaddr) + len(wire(fcp, type, v))))
+                    result == d_list(v) and buffer.bitaddr == old(buffer.bitaddr) + len(wire(fcp, type, v))))
     ghost_arg("_decode", v=d_list(v)[it])
     option("loop0_locals", {"data": "seq[dyn]"})
     loop(0, over="range(type.size)",
@@ -117,7 +117,7 @@ def _decode_dynamic_array(buffer: "_Buffer", fcp: "ref:FcpV2", type: "ref:Dynami
     ensures(buffer.bitaddr >= old(buffer.bitaddr))
     no_raise_if(conforms(fcp, type, v) and starts(fcp, type, buffer.gbits, buffer.bitaddr, v))
     ensures(implies(conforms(fcp, type, v) and starts(fcp, type, buffer.gbits, old(buffer.bitaddr), v),
-                    d_mk_list(result) == v and buffer.bitaddr == old(buffer.bitaddr) + size(wire(fcp, type, v))))
+                    result == d_list(v) and buffer.bitaddr == old(buffer.bitaddr) + size(wire(fcp, type, v))))
     ghost_arg("_decode", v=d_list(v)[it])
     option("loop0_locals", {"data": "seq[dyn]"})
     loop(0, over="range(len)",
